@@ -129,8 +129,10 @@ def check_C13(tier, nproc=None):
     for n in range(0, N + 1):
         c.add(Job('vH_C13_token', [('bytes', 'd', n)], weight=2 ** n))
         c.add(Job('vH_C13_literals', [('bytes', 'd', n)], weight=3 ** n))
-    c.bounds = {'N': N}
-    c.must_reach = ['C13.eof', 'C13.token', 'C13.readnull']
+        if n <= N - 1:
+            c.add(Job('vH_C13_exclusive', [('bytes', 'd', n)], weight=5 ** n, opts={'float_contract': True}))
+    c.bounds = {'N': N, 'N_exclusive': N - 1}
+    c.must_reach = ['C13.eof', 'C13.token', 'C13.readnull', 'C13.exclusive']
     c.assumptions = ['reference token table / literal matcher in harness/zz_verif_ref.go', 'amd64']
     c.outside = ['inputs longer than N bytes (whitespace prefixes longer than N)']
     c.run_jobs(nproc)
@@ -154,7 +156,10 @@ def check_C07(tier, nproc=None):
                     c.add(Job('vH_C07', [('bytes', 'd', n, pre), ('bool', obj)], weight=3 ** n))
             else:
                 c.add(Job('vH_C07', [('bytes', 'd', n), ('bool', obj)], weight=3 ** n))
-    c.bounds = {'N': N, 'handler': 'every per-call mix of "return 0" and "return exact end offset" (one nondeterministic boolean per call)'}
+    for t in ([b'{"k":[[', 1, b']]}'], [b'[[[', 1, b']]]'], [b'{"k":{"k":{"k":', 1, b'}}}'], [b'[{"a":[', 1, b']}]'], [b'[[[[', 1, b']]]]'], [b'{"a":[[[', 1, b']]]}']):
+        for obj in (False, True):
+            c.add(Job('vH_C07', [('tmpl', 'd', t), ('bool', obj)], weight=500, opts={'scale_depth': 3}))
+    c.bounds = {'N': N, 'depth_limit': 'nesting templates with the limit scaled to 3 (the handler machines themselves have no limit; values the handler declines are validated by the embedded skip machines)', 'handler': 'every per-call mix of "return 0" and "return exact end offset" (one nondeterministic boolean per call)'}
     c.must_reach = ['C07.returned', 'C07.success']
     _std(c)
     c.outside = ['inputs longer than N bytes', 'more than 8 members', 'nesting beyond N']
@@ -193,6 +198,12 @@ def check_C10(tier, nproc=None):
             c.add(Job('vH_C10_scalars', [('bytes', 'd', n), ('int', m)], weight=3 ** n))
         for spare in ([0, 3] if tier == 'quick' else [0, 1, 3, 4, n + 4]):
             c.add(Job('vH_C10_strings', [('bytes', 'd', n), ('int', spare)], weight=2 ** n))
+    # inputs whose backing array extends beyond their length (stale bytes between len and cap)
+    for t in ([b'"\\u', ('hex', 4), b'"'], [b'\\u', ('hex', 4)], [b'"', 1, b'\\u', ('hex', 4)]):
+        t = [((x[1], x[0]) if isinstance(x, tuple) else x) for x in t]
+        c.add(Job('vH_C10_strings', [('tmpl', 'd', t), ('int', 2)], weight=500))
+    for n, extra in (((6, 6),) if tier == 'quick' else ((6, 6), (7, 6))):
+        c.add(Job('vH_C10_strings', [('bytescap', 'd', n, extra), ('int', 2)], weight=3 ** n, opts={'prefix': None}))
     c.bounds = {'N_handlers': N, 'N_entry_points': NS, 'handler_offsets': 'free 64-bit value at every call'}
     c.must_reach = ['C10.handler-returned', 'C10.scalars-done', 'C10.strings-done']
     _std(c, ['every implicit Go runtime check (index, slice bounds, nil dereference, type assertion, division, make size) is an assertion of the encoding'])
@@ -339,6 +350,8 @@ TREE_TEMPLATES = [
     [b'{"', 1, b'\\', 1, b'":"', 1, b'\\', 1, b'"}'],
     [b' [', 2, b', ', 3, b' ] '],
     [b'{"\\u', ('hexd', 4), b'\\u', ('hexd', 4), b'":1}'],
+    [b'{"', 1, b'\\', 1, b'":{"', 1, b'\\', 1, b'":1}}'],
+    [b'{"a\\tb":[{"', 1, b'\\n":', 1, b'}]}'],
 ]
 DEPTH_TREE_TEMPLATES = [[b'[[],[[],[[],[[]', 1, b']]]]'], [b'{"a":{},"b":[[],{"c":[', 1, b']}]}'], [b'[[[', 1, b']]]'], [b'[[[[', 1, b']]]]'], [b'[1,[2,[3,[4', 1, b']]]]']]
 
@@ -393,7 +406,7 @@ def check_C15(tier, nproc=None):
             c.add(Job('vH_C15', [('tmpl', 'a', a), ('tmpl', 'b', b), ('int', w1), ('int', w2)], weight=100, opts=o))
     # depth accounting across calls, with the limit scaled to 3
     od = {'float_contract': True, 'scale_depth': 3}
-    for a in ([b'[1, 2'], [b'{"a": tru}'], [b'[[[[1]]]]'], [b'[[1]]'], [b'[[[[', 1]):
+    for a in ([b'[1, 2'], [b'{"a": tru}'], [b'[[[[1]]]]'], [b'[[1]]'], [b'[[[[', 1], [b'null'], [b' null ']):
         for b in ([b'[[[1]]]'], [b'[[[[1]]]]'], [b'{"a":{"b":{"c":1}}}'], [b'[', 1, b'[[1]]', 1]):
             for w1, w2 in [(0, 0), (2, 0), (1, 0), (2, 2), (0, 2)]:
                 c.add(Job('vH_C15', [('tmpl', 'a', a), ('tmpl', 'b', b), ('int', w1), ('int', w2)], weight=100, opts=od))
@@ -401,6 +414,11 @@ def check_C15(tier, nproc=None):
         for b in ([b'{"a": tru}'], [b'[{"', 1, b'":1}]']):
             for cc in ([b'[', 1, b',{"', 1, b'":2}]'], [b'{}']):
                 c.add(Job('vH_C15_three', [('tmpl', 'a', a), ('tmpl', 'b', b), ('tmpl', 'c', cc), ('int', 0), ('int', 0), ('int', 0)], weight=200, opts=o))
+    # success of one kind, failure of the other kind, success of the first kind again
+    for a, w1 in (([b'[', 1, b',', 1, b']'], 2), ([b'{"', 1, b'":', 1, b'}'], 1), ([b'[[', 1, b'],{"a":', 1, b'}]'], 0)):
+        for b, w2 in (([b'{"a":1,'], 1), ([b'[1,'], 2), ([b'{"a":[1,2'], 0)):
+            for cc, w3 in (([b'[', 1, b']'], 2), ([b'{"', 1, b'":3}'], 1), ([b'[[3],{"c":', 1, b'}]'], 0)):
+                c.add(Job('vH_C15_three', [('tmpl', 'a', a), ('tmpl', 'b', b), ('tmpl', 'c', cc), ('int', w1), ('int', w2), ('int', w3)], weight=200, opts=o))
     c.bounds = {'histories': 'two calls (and selected three-call sequences) on one reader; documents from %d x %d templates with symbolic bytes; all ReadValue/ReadObject/ReadArray combinations listed' % (len(A), len(B)),
                 'first_docs': [_tmplstr(t) for t in A], 'second_docs': [_tmplstr(t) for t in B]}
     c.must_reach = ['C15.second-call', 'C15.second-ok', 'C15.first-ok', 'C15.third-call']
@@ -442,7 +460,8 @@ def check_C16(tier, nproc=None):
     for n in range(0, N + 1):
         for which in range(4):
             c.add(Job('vH_C16_inputs', [('bytes', 'd', n), ('int', which)], weight=4 ** n, opts=o))
-        c.add(Job('vH_C16_owned', [('bytes', 'd', n)], weight=4 ** n, opts=o))
+        for bc in (0, 4):
+            c.add(Job('vH_C16_owned', [('bytes', 'd', n), ('int', bc)], weight=4 ** n, opts=o))
         # append semantics / independence from prior contents and spare capacity of destination and scratch
         for pre, spare in ([(1, 0), (2, 1), (2, 5)] if tier == 'quick' else [(1, 0), (1, 1), (2, 1), (2, 3), (2, 5), (2, n + 4)]):
             c.add(Job('vH_C06_bytes', [('bytes', 'd', n), ('int', pre), ('int', spare)], weight=3 ** n))
@@ -452,7 +471,8 @@ def check_C16(tier, nproc=None):
         c.add(Job('vH_C06_string', [('bytes', 'd', n), ('bool', True)], weight=3 ** n))
     T = [[b'"', 1, b'\\', 1, 1, b'"'], [b'"\\u', 4, 1, b'"'], [b'["', 1, b'\\', 1, b'",{"', 1, b'\\', 1, b'":"', 1, b'"}]']]
     for t in T:
-        c.add(Job('vH_C16_owned', [('tmpl', 'd', t)], weight=5000, opts=o))
+        for bc in (0, 4):
+            c.add(Job('vH_C16_owned', [('tmpl', 'd', t), ('int', bc)], weight=5000, opts=o))
         c.add(Job('vH_C16_inputs', [('tmpl', 'd', t), ('int', 1)], weight=5000, opts=o))
         c.add(Job('vH_C16_inputs', [('tmpl', 'd', t), ('int', 3)], weight=5000, opts=o))
         for pre, spare in [(2, 0), (2, 2), (1, 7)]:
@@ -499,6 +519,10 @@ def check_C04(tier, nproc=None):
     for e10 in range(-26, 42):
         for neg in (False, True):
             c.add(Job('vH_FP_exact', [('int', e10), ('bool', neg)], pkg=FP, weight=500, opts=ox))
+    # every API that decodes numbers to float64 returns what ReadFloat64 returns (bit for bit)
+    oa = {'float_contract': True, 'nsamples': 1}
+    for n in range(0, (5 if tier == 'quick' else 6) + 1):
+        c.add(Job('vH_C04_api', [('bytes', 'd', n)], weight=4 ** n, opts=oa))
     # tier 4: the glue of ParseJSONFloatPrefix against the tiers' contracts
     og = {'glue': True, 'bits_intrinsics': False, 'nsamples': 2}
     G = [[(3, D), b'.', (2, D)], [b'-', (1, D), b'.', (4, D), b'e5'], [b'0.000', (18, D)], [(20, D)], [(19, D), b'.', (2, D), b'e-10'],
@@ -511,7 +535,7 @@ def check_C04(tier, nproc=None):
                 'glue_templates': [_tmplstr(t) for t in G],
                 'exact_path': 'atof64exact for every decimal exponent -26..41, both signs, every 64-bit mantissa',
                 'eisel_lemire': 'every one of the 696 table rows x every 64-bit mantissa with 0 leading zeros; leading-zero counts %s on %s rows; negative sign on the same rows' % (extra_clz, 'every 58th' if tier == 'quick' else 'all')}
-    c.must_reach = ['C04.scan-returned', 'C04.scan-ok', 'C04.el-returned', 'C04.el-ok', 'C04.exact-returned', 'C04.exact-ok', 'C04.glue-returned', 'C04.glue-ok']
+    c.must_reach = ['C04.scan-returned', 'C04.scan-ok', 'C04.el-returned', 'C04.el-ok', 'C04.exact-returned', 'C04.exact-ok', 'C04.glue-returned', 'C04.glue-ok', 'C04.api-number']
     _std(c, ['R-ROUND (engine/gosym/fpspec.py): nearest binary64 with ties to even, as linear integer inequalities per exponent field; validated natively with math/big in replays',
              'math/bits.Mul64 and LeadingZeros64 are exact term-level intrinsics',
              'tier 4: eiselLemire64 replaced by its contract (free ok; when ok the result is rnd(man*10^exp), tier 3); atof64exact runs for real in the exact-rational model; f2 == fUp implies every value between the two bounds rounds to f2 (monotonicity of rounding, meta-argument)',
